@@ -37,6 +37,13 @@ package io
 //@   implements (io.Reader).Read
 
 //@ func (*discardingReadSeekerPlusByte).Seek
+//@   let cn, cerr := call[io.CopyN#0]
+//@   let cn1, cerr1 := call[io.CopyN#1]
+//@   call[errors.New#0] assert refuses_only_a_rewind [C03]: whence == 0 && wrap_s64(offset - old(drsb.offset)) < 0
+//@   call[io.CopyN#1] assert discards_up_to_the_asked_offset [C03]: ref(arg1) == ref(drsb) && arg2 == wrap_s64(offset - old(drsb.offset)) && whence == 0
+//@   call[io.CopyN#0] assert discards_the_asked_distance [C03]: ref(arg1) == ref(drsb) && arg2 == offset && whence == 1
+//@   ensures reports_where_it_stands [C03]: (whence == 0 && wrap_s64(offset - old(drsb.offset)) >= 0 ==> result0 == drsb.offset && err == cerr1) && (whence == 1 ==> result0 == drsb.offset && err == cerr)
+//@   ensures other_whence_is_refused [C03,C09]: whence != 0 && whence != 1 ==> err != nil && result0 == 0
 //@   note not `implements (io.Seeker).Seek`: seeking past the end of the stream reports the io.EOF of the discarding copy
 //@   modifies pos(drsb), drsb.offset
 //@   ensures start [C03]: err == nil && whence == 0 ==> result0 == offset && pos(drsb) == sbase(drsb) + offset
@@ -68,6 +75,7 @@ package io
 //@   ensures base_kept: ow.base == old(ow.base)
 
 //@ func NewOffsetReadSeeker
+//@   ensures only_an_overflowing_origin_is_refused [C07,C09]: !typeis(r, "*v2/internal/io.offsetReadSeeker") ==> err == nil
 //@   ghostinit result0
 //@   choose own_cursor: freshobj(result0) ==> cell(result0) == ref(result0)
 //@   ensures kind [C07,C09]: err == nil ==> typeis(result0, "*v2/internal/io.offsetReadSeeker") && freshobj(result0)
@@ -80,6 +88,9 @@ package io
 //@   ensures def [C07]: result == wrap_s64(pos(o) - sbase(o))
 
 //@ func (*offsetReadSeeker).Seek
+//@   ensures an_absolute_seek_in_range_succeeds [C07]: whence == 0 && offset + o.base < 9223372036854775808 ==> err == nil && o.off == offset + old(o.base)
+//@   ensures a_relative_seek_in_range_succeeds [C07]: whence == 1 && 0 <= old(o.off) + offset && old(o.off) + offset < 9223372036854775808 ==> err == nil && o.off == old(o.off) + offset
+//@   ensures a_failed_seek_moves_nothing [C07,C09]: err != nil ==> o.off == old(o.off) && result0 == 0
 //@   implements (io.Seeker).Seek except nonneg
 //@   note nonneg is not claimed: a relative seek may move before the reader's own origin without an error
 //@   assume sane_origin: o.base >= 0 && o.off >= 0
@@ -88,6 +99,9 @@ package io
 //@   ghost before call[offsetReadSeeker.Position#0]: pos(o) := o.off
 
 //@ func (*offsetReadSeeker).Read
+//@   let rn, rerr := call[ReaderAt.ReadAt#0]
+//@   call[ReaderAt.ReadAt#0] assert at_its_own_offset [C02,C07]: ref(arg0) == ref(o.r) && ref(arg1) == ref(p) && arg2 == old(o.off)
+//@   ensures passes_on_the_sources_count_and_error [C02,C07]: n == rn && err == rerr && o.off == old(o.off) + rn
 //@   implements (io.Reader).Read
 //@   assume no_wrap: 0 <= o.off && o.off <= 4611686018427387904
 //@   ensures strict [C09]: (n < len(p) ==> err != nil) && (n == len(p) && len(p) > 0 ==> err == nil)
@@ -95,6 +109,10 @@ package io
 //@   ghost before return: pos(o) := o.off
 
 //@ func (*offsetReadSeeker).ReadAt
+//@   let rn, rerr := call[ReaderAt.ReadAt#0]
+//@   call[ReaderAt.ReadAt#0] assert at_its_origin_plus_the_asked_offset [C07]: ref(arg0) == ref(o.r) && ref(arg1) == ref(p) && arg2 == wrap_s64(off + o.base) && off >= 0
+//@   ensures passes_on_the_sources_count_and_error [C07]: off >= 0 && off + o.base < 9223372036854775808 ==> n == rn && err == rerr
+//@   ensures a_negative_offset_is_past_the_data [C07,C09]: off < 0 ==> n == 0 && err == io.EOF
 //@   implements (io.ReaderAt).ReadAt except full_ok, at_end
 //@   note full_ok and at_end are not claimed: a read at a negative offset reports io.EOF
 //@   assume sane_origin: o.base >= 0
@@ -110,3 +128,31 @@ package io
 //@ func ToReadSeeker
 //@   ensures identity [C07]: implements(ra, "io.ReadSeeker") ==> ref(result) == ref(ra)
 //@   ensures nonnil [C07]: result != nil
+
+// Adapters between io.ReaderAt and io.ReadSeeker (C07: readable storage over a ReaderAt-only source, index generation
+// over a seeker): the seeker adapter keeps its own position and reads the source exactly there; the ReaderAt adapter
+// positions the seeker at the asked offset before every read; both hold their own mutex around the two steps.
+
+//@ func (*readerAtSeeker).Read
+//@   let rn, rerr := call[ReaderAt.ReadAt#0]
+//@   call[ReaderAt.ReadAt#0] assert at_its_own_position [C07]: ref(arg0) == ref(ras.ra) && ref(arg1) == ref(p) && arg2 == old(ras.position)
+//@   call[ReaderAt.ReadAt#0] assert under_its_mutex [C07,C08]: held(ras.mu) == 2
+//@   ensures advances_by_what_was_read [C07]: n == rn && err == rerr && ras.position == wrap_s64(old(ras.position) + rn)
+//@   requires unlocked [C08]: held(ras.mu) == 0
+//@   ensures released [C08]: held(ras.mu) == 0
+
+//@ func (*readerAtSeeker).Seek
+//@   ensures absolute [C07]: whence == 0 ==> err == nil && ras.position == offset && result0 == offset
+//@   ensures relative [C07]: whence == 1 ==> err == nil && ras.position == wrap_s64(old(ras.position) + offset) && result0 == ras.position
+//@   ensures from_the_end_is_refused [C07,C09]: whence != 0 && whence != 1 ==> err != nil && ras.position == old(ras.position) && result0 == 0
+//@   requires unlocked [C08]: held(ras.mu) == 0
+//@   ensures released [C08]: held(ras.mu) == 0
+
+//@ func (*readSeekerAt).ReadAt
+//@   let _, serr := call[Seeker.Seek#0]
+//@   let rn, rerr := call[Reader.Read#0]
+//@   call[Seeker.Seek#0] assert to_the_asked_offset [C07]: ref(arg0) == ref(rsa.rs) && arg1 == off && arg2 == 0 && held(rsa.mu) == 2
+//@   call[Reader.Read#0] assert then_reads_there [C07]: ref(arg0) == ref(rsa.rs) && ref(arg1) == ref(p) && serr == nil && held(rsa.mu) == 2
+//@   ensures result_of_that_read [C07]: (serr != nil ==> n == 0 && err == serr) && (serr == nil ==> n == rn && err == rerr)
+//@   requires unlocked [C08]: held(rsa.mu) == 0
+//@   ensures released [C08]: held(rsa.mu) == 0
